@@ -2564,4 +2564,62 @@ theorem ignore_write_all (F : ExtFloat) :
         show isWs 0x3A = false by decide, hv, doneF, hes]
 
 
+/-! ## Documents with arbitrary whitespace separators -/
+
+/-- Documents, each followed by its separator. -/
+def joinDocs (F : ExtFloat) : List (JVal × List Nat) → List Nat
+  | [] => []
+  | (d, sep) :: r => write F d ++ (sep ++ joinDocs F r)
+
+/-- Every document is well-formed and within the depth limit, every separator
+is non-empty whitespace. -/
+def sepsOk (l : List (JVal × List Nat)) : Prop :=
+  ∀ p ∈ l, wellFormed p.1 = true ∧ depthOf p.1 < depthLimit ∧ p.2 ≠ [] ∧ ∀ b ∈ p.2, isWs b = true
+
+theorem endOk_ws_append {sep l : List Nat} (h1 : sep ≠ []) (h2 : ∀ b ∈ sep, isWs b = true) :
+    endOk (sep ++ l) = true := by
+  cases sep with
+  | nil => exact absurd rfl h1
+  | cons w ws => simp [endOk, h2 w (by simp)]
+
+theorem readerLoop_joinDocs (F : ExtFloat) (l : List (JVal × List Nat)) (h : sepsOk l) :
+    readerLoop (joinDocs F l) = (l.map Prod.fst, .ok) := by
+  induction l with
+  | nil => rw [readerLoop_eq]; simp [joinDocs, skipWs]
+  | cons p r ih =>
+    obtain ⟨d, sep⟩ := p
+    obtain ⟨h1, h2, h3, h4⟩ := h (d, sep) (by simp)
+    rw [joinDocs, readerLoop_write F d _ h1 (endOk_ws_append h3 h4), if_pos h2, readerLoop_ws sep _ h4,
+      ih (fun x hx => h x (by simp [hx]))]
+    rfl
+
+theorem sliceDocs_joinDocs (F : ExtFloat) (l : List (JVal × List Nat)) (h : sepsOk l) :
+    sliceDocs (joinDocs F l) = (l.map Prod.fst, .ok) := by
+  induction l with
+  | nil => rw [sliceDocs_eq]; simp [joinDocs, skipWs]
+  | cons p r ih =>
+    obtain ⟨d, sep⟩ := p
+    obtain ⟨h1, h2, h3, h4⟩ := h (d, sep) (by simp)
+    rw [joinDocs, sliceDocs_write F d _ h1 (endOk_ws_append h3 h4), if_pos h2, sliceDocs_ws sep _ h4,
+      ih (fun x hx => h x (by simp [hx]))]
+    rfl
+
+theorem joinDocs_valid (F : ExtFloat) (l : List (JVal × List Nat)) (h : sepsOk l) :
+    u8run .acc (joinDocs F l) = .acc := by
+  induction l with
+  | nil => rfl
+  | cons p r ih =>
+    obtain ⟨d, sep⟩ := p
+    obtain ⟨h1, _, _, h4⟩ := h (d, sep) (by simp)
+    rw [joinDocs]
+    exact u8_append ((write_valid_all F).1 d h1)
+      (u8_append (u8run_ascii sep (fun b hb => isWs_lt (h4 b hb))) (ih (fun x hx => h x (by simp [hx]))))
+
+theorem sliceLoop_joinDocs (F : ExtFloat) (l : List (JVal × List Nat)) (h : sepsOk l) :
+    sliceLoop (joinDocs F l) = (l.map Prod.fst, .ok) := by
+  unfold sliceLoop validUtf8
+  rw [joinDocs_valid F l h]
+  simp [sliceDocs_joinDocs F l h]
+
+
 end Xt.Json
